@@ -52,6 +52,9 @@ def solve_kepler_E(M, e):
             E = En
             break
         E = En
+    else:
+        if abs(E - e * math.sin(E) - m) > 1e-13:
+            raise ArithmeticError("oracle Kepler solver (E) did not converge")
     return E + k * TWO_PI
 
 
@@ -79,6 +82,9 @@ def solve_kepler_H(M, e):
             H = Hn
             break
         H = Hn
+    else:
+        if abs(e * math.sinh(H) - H - m) > 1e-13 * max(1.0, m):
+            raise ArithmeticError("oracle Kepler solver (H) did not converge")
     return s * H
 
 
@@ -149,6 +155,38 @@ def stumpff(z):
     return (0.5 - z / 24 + z * z / 720, 1 / 6 - z / 120 + z * z / 5040)
 
 
+def _rtsafe(F, dF, lo, hi):
+    """Root of the increasing function F in [lo, hi]: Newton, bisection whenever Newton leaves the
+    bracket or fails to halve the step (Numerical Recipes' rtsafe).  Raises if not converged."""
+    x = 0.5 * (lo + hi)
+    dxold = hi - lo
+    dx = dxold
+    f = F(x)
+    if f < 0:
+        lo = x
+    else:
+        hi = x
+    for _ in range(5000):
+        df = dF(x) if math.isfinite(f) else math.inf
+        if (not math.isfinite(f)) or ((x - hi) * df - f) * ((x - lo) * df - f) > 0 or abs(2 * f) > abs(dxold * df):
+            dxold = dx
+            dx = 0.5 * (hi - lo)
+            xn = lo + dx
+        else:
+            dxold = dx
+            dx = f / df
+            xn = x - dx
+        if xn == x or abs(xn - x) <= 4e-16 * max(1.0, abs(x)):
+            return xn
+        x = xn
+        f = F(x)
+        if f < 0:
+            lo = x
+        else:
+            hi = x
+    raise ArithmeticError("oracle root finder did not converge")
+
+
 def propagate_uv(rv, dt, mu):
     """Universal-variable two-body propagation (Bate-Mueller-White / Curtis), bisection-safe."""
     r0 = np.asarray(rv[:3], float)
@@ -163,10 +201,14 @@ def propagate_uv(rv, dt, mu):
 
     def F(chi):
         z = alpha * chi * chi
-        C, S = stumpff(z)
-        return (
-            r0n * vr0 / sm * chi * chi * C + (1 - alpha * r0n) * chi**3 * S + r0n * chi - sm * dt
-        )
+        try:
+            C, S = stumpff(z)
+            val = r0n * vr0 / sm * chi * chi * C + (1 - alpha * r0n) * chi**3 * S + r0n * chi - sm * dt
+        except OverflowError:  # far beyond the root on a hyperbola (F is monotonic increasing)
+            val = math.nan
+        if not math.isfinite(val):
+            return math.inf if chi > 0 else -math.inf
+        return val
 
     def dF(chi):
         z = alpha * chi * chi
@@ -186,20 +228,7 @@ def propagate_uv(rv, dt, mu):
         while F(lo) > 0:
             hi = lo
             lo *= 2
-    chi = 0.5 * (lo + hi)
-    for _ in range(400):
-        f = F(chi)
-        if f > 0:
-            hi = chi
-        else:
-            lo = chi
-        n = chi - f / dF(chi)
-        if not (lo <= n <= hi):
-            n = 0.5 * (lo + hi)
-        if abs(n - chi) <= 2e-16 * max(1.0, abs(chi)):
-            chi = n
-            break
-        chi = n
+    chi = _rtsafe(F, dF, lo, hi)
     z = alpha * chi * chi
     C, S = stumpff(z)
     f = 1 - chi * chi / r0n * C
